@@ -223,7 +223,7 @@ func GenPool(t *rapid.T, cfg Cfg, n int) []string {
 			add(GenPattern(t, cfg))
 		case mode < 8:
 			base := MustParse(rapid.SampledFrom(pool).Draw(t, "base"), cfg.Icpt)
-			cut := rapid.IntRange(1, len(base.Atoms)).Draw(t, "cut")
+			cut := runeCut(base, rapid.IntRange(1, len(base.Atoms)).Draw(t, "cut"))
 			b := newBuilder(cfg)
 			b.seed(base, cut)
 			b.extend(t, rapid.IntRange(1, 2).Draw(t, "ext"))
@@ -236,7 +236,7 @@ func GenPool(t *rapid.T, cfg Cfg, n int) []string {
 				cut = 1
 			} else {
 				base = MustParse(rapid.SampledFrom(pool).Draw(t, "bbase"), cfg.Icpt)
-				cut = rapid.IntRange(1, len(base.Atoms)).Draw(t, "bcut")
+				cut = runeCut(base, rapid.IntRange(1, len(base.Atoms)).Draw(t, "bcut"))
 			}
 			k := rapid.IntRange(5, 8).Draw(t, "burstK")
 			off := rapid.IntRange(0, len(burstBytes)-1).Draw(t, "burstOff")
@@ -268,6 +268,16 @@ func GenPool(t *rapid.T, cfg Cfg, n int) []string {
 		}
 	}
 	return pool
+}
+
+// runeCut moves a cut position (in atoms) forward so that it never falls inside
+// a multi-byte character: literal text of generated patterns is always valid
+// UTF-8 (Go's regexp compiler rejects anything else after a regexp parameter).
+func runeCut(p *Pattern, cut int) int {
+	for cut < len(p.Atoms) && p.Atoms[cut].IsLit() && p.Atoms[cut].B&0xC0 == 0x80 {
+		cut++
+	}
+	return cut
 }
 
 const pathAlphabet = "ab1/.-xyz7c"
